@@ -470,6 +470,55 @@ fn check_matcher(
     None
 }
 
+/// Map switch at an idle point: `typed1` is fed under the bindings `first`; if the statement says the matcher is
+/// idle afterwards (nothing typed yet, or the last key was a demanded firing), the bindings `more` are registered
+/// on top and `typed2` is fed. A matcher that is idle carries nothing over, so the answers to `typed2` must equal
+/// those of a matcher that starts fresh with the final bindings - for `KeyMap::lookup_state` with the caller's
+/// buffer and for `KeyMapHandler` with registrations between keys. None = not idle (nothing compared).
+fn check_switch(first: &[Vec<u8>], more: &[Vec<u8>], typed1: &[u8], typed2: &[u8]) -> Option<Result<(), (String, String)>> {
+    let (map_a, dict_a) = build(first, 0);
+    let demands = matcher_demands(&dict_a, typed1);
+    if !(typed1.is_empty() || matches!(demands.last(), Some(Expect::Fire { .. }))) {
+        return None;
+    }
+    let mut all: Vec<Vec<u8>> = first.to_vec();
+    all.extend(more.iter().cloned());
+    let (map_ab, _) = build(&all, 0);
+    // lookup_state, one buffer across both maps
+    let mut state = Vec::new();
+    for k in typed1 {
+        let _ = map_a.lookup_state(&mut state, key(*k));
+    }
+    let carried: Vec<Option<usize>> = typed2.iter().map(|k| map_ab.lookup_state(&mut state, key(*k)).copied()).collect();
+    let mut fresh_state = Vec::new();
+    let fresh: Vec<Option<usize>> = typed2.iter().map(|k| map_ab.lookup_state(&mut fresh_state, key(*k)).copied()).collect();
+    let describe = |what: &str, got: &[Option<usize>], want: &[Option<usize>]| {
+        format!(
+            "{what}: bound [{}], typed [{}] (idle afterwards), then [{}] registered and [{}] typed: answers {:?}, a fresh matcher with the same bindings answers {:?}",
+            show_hist(first), show(typed1), show_hist(more), show(typed2), got, want
+        )
+    };
+    if carried != fresh {
+        return Some(Err(("idle-matcher-carries-keys:lookup_state".into(), describe("KeyMap::lookup_state", &carried, &fresh))));
+    }
+    // KeyMapHandler with registrations between keys
+    let mut handler: KeyMapHandler<usize> = KeyMapHandler::new();
+    for (i, c) in first.iter().enumerate() {
+        handler.register(&keys_of(c), i);
+    }
+    for k in typed1 {
+        let _ = handler.handle(key(*k));
+    }
+    for (i, c) in more.iter().enumerate() {
+        handler.register(&keys_of(c), first.len() + i);
+    }
+    let carried: Vec<Option<usize>> = typed2.iter().map(|k| handler.handle(key(*k)).copied()).collect();
+    if carried != fresh {
+        return Some(Err(("idle-matcher-carries-keys:handler".into(), describe("KeyMapHandler", &carried, &fresh))));
+    }
+    Some(Ok(()))
+}
+
 /// all prefix-free sets of 0..=n chords (as sorted index lists into `all`)
 fn prefix_free_sets(all: &[Vec<u8>], n: usize) -> Vec<Vec<usize>> {
     fn related(a: &[u8], b: &[u8]) -> bool {
@@ -682,6 +731,38 @@ fn character_forms_sweep(top: u32) -> ParseAcc {
         .reduce(ParseAcc::default, ParseAcc::merge)
 }
 
+/// Words that are (or could be taken for) modifier names, in every ordered pair, around four key names, in five
+/// arrangements - raw strings, so a word the parser accepts but the printer has no name for is reached.
+fn modifier_words_sweep() -> ParseAcc {
+    const WORDS: [&str; 22] = [
+        "", "alt", "ctrl", "shift", "press", "super", "hyper", "meta", "capslock", "numlock", "scrolllock", "release", "repeat", "cmd", "win",
+        "control", "option", "Alt", "CTRL", "Numlock", "mod", "lock",
+    ];
+    const KEYS: [&str; 4] = ["a", "f1", "tab", "x"];
+    let mut inputs: Vec<String> = vec![];
+    for w1 in WORDS {
+        for w2 in WORDS {
+            for k in KEYS {
+                let join = |parts: &[&str]| parts.iter().filter(|p| !p.is_empty()).copied().collect::<Vec<_>>().join("+");
+                inputs.push(join(&[w1, w2, k]));
+                inputs.push(join(&[w1, k, w2]));
+                inputs.push(join(&[k, w1, w2]));
+                inputs.push(format!("{} {}", join(&[w1, k]), join(&[w2, k])));
+                inputs.push(format!("ctrl+x {} {}", join(&[w1, w2, k]), k));
+            }
+        }
+    }
+    inputs.sort();
+    inputs.dedup();
+    inputs
+        .par_iter()
+        .fold(ParseAcc::default, |mut acc, s| {
+            acc.feed(s, &TYPES);
+            acc
+        })
+        .reduce(ParseAcc::default, ParseAcc::merge)
+}
+
 fn key_names(thorough: bool) -> Vec<KeyName> {
     use KeyName::*;
     let mut v = vec![
@@ -875,6 +956,43 @@ pub fn run(ctx: &Ctx) -> Result<Report, String> {
     capped |= hc.1;
     let mut hc = hc.0;
 
+    // 3c. registrations while the matcher is idle between two chords
+    let sw_chords = chords(&HANDLER_CHORD_KEYS, 1, 2);
+    let sw_sets = prefix_free_sets(&sw_chords, 2);
+    let sw_typed1 = 2usize;
+    let sw_typed2 = ctx.tier.pick(2usize, 3usize);
+    let switch_runs: u64 = sw_sets
+        .par_iter()
+        .map(|sa| {
+            let first: Vec<Vec<u8>> = sa.iter().map(|i| sw_chords[*i].clone()).collect();
+            let mut runs = 0u64;
+            for sb in sw_sets.iter() {
+                let more: Vec<Vec<u8>> = sb.iter().map(|i| sw_chords[*i].clone()).collect();
+                for l1 in 0..=sw_typed1 {
+                    for i1 in 0..4u64.pow(l1 as u32) {
+                        let typed1 = typed_string(i1, l1);
+                        for l2 in 1..=sw_typed2 {
+                            for i2 in 0..4u64.pow(l2 as u32) {
+                                let typed2 = typed_string(i2, l2);
+                                let w = || json!({"kind": "switch", "first": first.iter().map(|c| show(c)).collect::<Vec<_>>(), "more": more.iter().map(|c| show(c)).collect::<Vec<_>>(), "typed1": show(&typed1), "typed2": show(&typed2)});
+                                match catch(|| check_switch(&first, &more, &typed1, &typed2)) {
+                                    Err(p) => viol.add(format!("handler:{}", p.key()), format!("panicked: {}", p.message), w()),
+                                    Ok(None) => break,
+                                    Ok(Some(Err((k, d)))) => {
+                                        runs += 1;
+                                        viol.add(format!("handler:{k}"), d, w())
+                                    }
+                                    Ok(Some(Ok(()))) => runs += 1,
+                                }
+                            }
+                        }
+                    }
+                }
+            }
+            runs
+        })
+        .sum();
+
     // 3b. long chords: one chord of four keys (every one over the chord keys), alone or next to a
     // single-key chord, so that a failure can happen with three keys pending
     let long_maps: Vec<Vec<Vec<u8>>> = chords(&HANDLER_CHORD_KEYS, 4, 4)
@@ -935,13 +1053,14 @@ pub fn run(ctx: &Ctx) -> Result<Report, String> {
     for s in function_key_inputs() {
         fk.feed(&s, &TYPES);
     }
+    let mw = modifier_words_sweep();
     let cf = character_forms_sweep(ctx.tier.pick(0x3000, 0x11_0000));
     let (pv, printed_values, print_parse_identity) = printed_values_sweep(ctx.tier.pick(false, true));
     lap("parsers", &mut timing);
     let mut parse_cov = serde_json::Map::new();
     let mut parse_evals = 0;
     let mut parse_accepted = 0;
-    for (name, acc) in [("token_strings", tok), ("function_key_digits", fk), ("character_forms", cf), ("printed_values", pv)] {
+    for (name, acc) in [("token_strings", tok), ("function_key_digits", fk), ("character_forms", cf), ("modifier_words", mw), ("printed_values", pv)] {
         parse_cov.insert(
             name.to_string(),
             json!({"inputs": acc.inputs, "evaluations": acc.evaluations, "accepted_and_round_tripped": acc.accepted, "rejected": acc.rejected, "distinct_accepted_values": acc.distinct.len()}),
@@ -964,6 +1083,7 @@ pub fn run(ctx: &Ctx) -> Result<Report, String> {
     let pairs = ld(&pairs);
     let mut r = Report::new("model_checking");
     r.set("matcher_long_chords", json!({"maps": long_maps_n, "runs": long_runs, "typed_len": long_typed}));
+    r.set("matcher_map_switch_at_idle", json!({"binding_sets": sw_sets.len(), "ordered_pairs": sw_sets.len() * sw_sets.len(), "typed_before": sw_typed1, "typed_after": sw_typed2, "compared_runs": switch_runs}));
     r.set("states", states)
         .set("transitions", transitions)
         .set("traces_validated_against_impl", transitions + pairs + hc.runs)
@@ -1040,6 +1160,18 @@ pub fn replay(w: &Value) -> Result<(bool, String), String> {
                 Err(p) => (true, format!("panicked: {} ({}:{})", p.message, p.file, p.line)),
                 Ok(Some((k, d))) => (true, format!("[{k}] {d}")),
                 Ok(None) => (false, format!("m1=[{}] overridden by m2=[{}]: library agrees with the model", show_hist(&h1), show_hist(&h2))),
+            })
+        }
+        "switch" => {
+            let first = strs(&w["first"])?;
+            let more = strs(&w["more"])?;
+            let typed1 = unshow(w["typed1"].as_str().ok_or("typed1")?)?;
+            let typed2 = unshow(w["typed2"].as_str().ok_or("typed2")?)?;
+            Ok(match catch(|| check_switch(&first, &more, &typed1, &typed2)) {
+                Err(p) => (true, format!("panicked: {} ({}:{})", p.message, p.file, p.line)),
+                Ok(None) => (false, "the matcher is not idle after the first key string: nothing is demanded".to_string()),
+                Ok(Some(Err((k, d)))) => (true, format!("[{k}] {d}")),
+                Ok(Some(Ok(()))) => (false, "a matcher that is idle carries nothing over: answers equal those of a fresh matcher".to_string()),
             })
         }
         "handler" => {
